@@ -105,7 +105,7 @@ func SpareDisjoint[T any](b, v []T) bool {
 func AssignsAt[T any](p *T)             {}
 func AssignsElems[T any](s []T)         {}
 func AssignsSpare[T any](s []T)         {}
-func AssignsGhost(name string, obj any) {}
+func AssignsGhost[T any](v T) {}
 
 // B1 is the one-byte string holding x.
 func B1(x byte) string { return string([]byte{x}) }
